@@ -1318,6 +1318,14 @@ impl Value {
         let mut vis = DocumentVisitor::new(json.len(), smut);
         parser.parse_dom(&mut vis)?;
         let idx = parser.read.index();
+        if idx > json.len() {
+            // the value was closed by the padding, not by the input
+            return Err(crate::Error::syntax(
+                crate::error::ErrorCode::EofWhileParsing,
+                json,
+                json.len(),
+            ));
+        }
 
         // NOTE: root node should is the first node
         *self = unsafe { vis.root.as_ref().clone() };
